@@ -28,6 +28,14 @@ configuration-dependent exception of the current tree):
   learning-rate state) and `tfStep`. `memory_alloc` of Sketchy and the internals of optax's
   adafactor state are outside the model (the latter is an opaque node).
 
+Parameter dtype. The model (and every theorem about it) is the float32 instance: all parameter-shaped
+leaves are `float32`. For parameters of another dtype the real optimizers do NOT keep the layout
+(known finding K7: updates come back float32, parameter-dtype state leaves — momenta, graft
+accumulators — turn float32 after the first update; float64 under x64 trips a `lax.cond` dtype check);
+a dtype-parametric model would have `momQV`/`plainQV`/`avgGradOf` carry the parameter dtype at init and
+float32 after `transformGrad`, i.e. the fixed-point theorems fail exactly there. The harness runs a
+separate oracle-only stream on non-float32 trees and reports dtype-only failures as K7.
+
 `Sig` is the generic pytree signature the harness extracts from the real state objects.
 -/
 import PrecondVerif.Model.Shapes
